@@ -1,25 +1,37 @@
 import Driver.Loc
+import RulioModel.PatIndexSpec
 open Lean
 
 /-! unit-level model of the pattern index and the term index (kinds "pidx", "terms", "tidx") -/
 
 def sortStrs (l : List String) : List String := (l.toArray.qsort (· < ·)).toList
 
+/-- also tracks which (id, pattern) pairs are currently indexed (a `rem` with the same pattern removes the pair) and
+prints, for every search, the ids that the theorem `index_complete` says must be among the candidates:
+`IdxOK pattern`, `EvOK event`, pattern matches the event -/
 def handlePidx (c : Json) : Json :=
-  let (_, outs) := (jarr c "ops").foldl (fun (acc : PI × List Json) op =>
-    let ri := acc.1
+  let (_, outs) := (jarr c "ops").foldl (fun (acc : (PI × List (String × Obj)) × List Json) op =>
+    let ri := acc.1.1
+    let live := acc.1.2
     let m := jobj op "m"
     let id := jstr op "id"
     match jstr op "op" with
     | "add" =>
       let (ri', e) := piAdd ri m id
-      (ri', acc.2 ++ [match e with | some e => errJ (perr e) | none => okJ (Json.bool true)])
+      ((ri', if e.isNone then live ++ [(id, m)] else live), acc.2 ++ [match e with | some e => errJ (perr e) | none => okJ (Json.bool true)])
     | "rem" =>
       let (ri', e) := piRem ri m id
-      (ri', acc.2 ++ [match e with | some e => errJ (perr e) | none => okJ (Json.bool true)])
+      let same := fun (q : String × Obj) => q.1 == id && (J.obj q.2) == (J.obj m)
+      -- removing any pattern that walks the same path also removes the id there; be conservative: drop every pair of this id
+      let _ := same
+      ((ri', live.filter (fun q => q.1 != id)), acc.2 ++ [match e with | some e => errJ (perr e) | none => okJ (Json.bool true)])
     | "search" =>
-      (ri, acc.2 ++ [match piSearch ri m with | .ok ids => okJ (strsJ (sortStrs ids)) | .error e => errJ (perr e)])
-    | _ => (ri, acc.2 ++ [errJ "unknown op"])) (PI.empty, [])
+      let must := if EvOK m then
+          (live.filter (fun q => IdxOK q.2 && (match matchesJ (.obj q.2) (.obj m) with | .ok bss => !bss.isEmpty | .error _ => false))).map (·.1)
+        else []
+      let out := match piSearch ri m with | .ok ids => okJ (strsJ (sortStrs ids)) | .error e => errJ (perr e)
+      ((ri, live), acc.2 ++ [(out.setObjVal! "must" (strsJ (sortStrs must.eraseDups))).setObjVal! "evok" (Json.bool (EvOK m))])
+    | _ => ((ri, live), acc.2 ++ [errJ "unknown op"])) ((PI.empty, []), [])
   Json.mkObj [("outs", Json.arr outs.toArray)]
 
 def handleTerms (c : Json) : Json := okJ (strsJ (sortStrs (extractTerms (jobj c "doc"))))
